@@ -313,7 +313,10 @@ func runFault(t *faultTask) *faultResult {
 		phase = "readback"
 		flip := false
 		for _, f := range t.Faults {
-			if vstor.Mode(f.Mode) == vstor.ModeFlip {
+			// a flipped byte in a table read is always detected (every table block is checksummed and
+			// the default options verify it; compactions are strict): nothing may be dropped then. In
+			// a journal or manifest read it may legitimately cost data (non-strict replay).
+			if vstor.Mode(f.Mode) == vstor.ModeFlip && storage.FileType(f.Type) != storage.TypeTable {
 				flip = true
 			}
 		}
